@@ -20,6 +20,7 @@ package presence_test
 import (
 	"errors"
 	"fmt"
+	"hash/fnv"
 	"math/rand"
 	"sort"
 	"testing"
@@ -473,6 +474,12 @@ func (s *presSUT) final() ([]any, error) {
 	return out, nil
 }
 
+func presHash(v any) int64 {
+	h := fnv.New64a()
+	h.Write([]byte(kit.JSON(v)))
+	return int64(h.Sum64() >> 1)
+}
+
 func presSlotsOf(st any) []int64 {
 	m, _ := st.(map[string]any)
 	var out []int64
@@ -514,7 +521,7 @@ func TestVerifPresence(t *testing.T) {
 			continue
 		}
 		sut, err := newPresSUT(kit.Map(b.Steps[0].Ev, "cfg"), presSlotsOf(b.Steps[0].St),
-			rand.New(rand.NewSource(env.Seed*1000003+int64(bi))), order)
+			rand.New(rand.NewSource(env.Seed*1000003+presHash(b))), order) // same presentation when the behaviour is replayed alone
 		if err != nil {
 			rep.Infra("behaviour %d: %v", bi, err)
 			continue
